@@ -201,3 +201,206 @@ def generic_terms() -> list:
     out.append(ty.Gen(prelude.GBox, ty.List(ty.Cls(str))))
     out.append(ty.Gen(prelude.GBox, ty.Gen(prelude.GBox, ty.Cls(int))))
     return out
+
+
+# ---------------------------------------------------------------------------
+# TypedDict inheritance family (classes generated in vp.prelude; membership read from CPython's own bookkeeping)
+
+
+def typeddict_family(rng=None, n_second_level: int = None) -> list:
+    """TypedDict terms of the prelude's inheritance family: every root (total / total=False x own key qualifiers),
+    every one-level subclass (x total / total=False x own qualifier or none), every two-base class, and the two-level
+    subclasses (all of them, or a sample of n_second_level drawn with rng)."""
+    first, second = [], []
+    for name in prelude.TDI_NAMES:
+        (second if name.count("_") >= 3 else first).append(name)
+    if n_second_level is not None and rng is not None and n_second_level < len(second):
+        second = rng.sample(second, n_second_level)
+    return [ty.typeddict_from_class(getattr(prelude, n)) for n in first + second]
+
+
+def typeddict_family_dicts(t: Ty) -> list:
+    """(source, dict) candidates around a TypedDict term: all keys / none / all but one / exactly one / one value of the
+    wrong type / required only / optional only / one undeclared key more."""
+    good = {int: ("1", 1), str: ("'x'", "x"), float: ("1.5", 1.5), bool: ("True", True)}
+    bad = {int: ("'x'", "x"), str: ("1", 1), float: ("'x'", "x"), bool: ("'x'", "x")}
+    fields = t.args[0]
+    keys = [n for n, _ in fields]
+    ftype = {n: ft.extra for n, (ft, _r) in fields}
+    req = [n for n, (_ft, r) in fields if r]
+    opt = [n for n, (_ft, r) in fields if not r]
+
+    def mk(present, wrong=None, extra=False):
+        items = [(k, (bad if k == wrong else good)[ftype[k]]) for k in present]
+        if extra:
+            items.append(("zz", ("0", 0)))
+        return ("{" + ", ".join(f"{k!r}: {v[0]}" for k, v in items) + "}", {k: v[1] for k, v in items})
+
+    out = [mk(keys), mk([]), mk(req), mk(opt), mk(keys, extra=True)]
+    for k in keys:
+        out.append(mk([x for x in keys if x != k]))
+        out.append(mk([k]))
+        out.append(mk(keys, wrong=k))
+        out.append(mk(req + [k] if k not in req else req, wrong=k))
+    seen, res = set(), []
+    for src, obj in out:
+        if src not in seen:
+            seen.add(src)
+            res.append((src, obj))
+    return res
+
+
+# ---------------------------------------------------------------------------
+# classes with a finite (or finitely NAMED) set of instances vs. unions of literals
+
+FINITE_CLASSES = [bool, prelude.Color, prelude.Num, prelude.FPerm, prelude.IMode]
+
+
+def finite_class_kind(c) -> str:
+    import enum
+
+    if c is bool:
+        return "bool"
+    for base, name in ((enum.IntFlag, "IntFlag"), (enum.Flag, "Flag"), (enum.IntEnum, "IntEnum"), (enum.Enum, "Enum")):
+        if isinstance(c, type) and issubclass(c, base):
+            return name
+    return "other"
+
+
+def finite_named_members(c) -> list:
+    """What iterating the class yields (bool: both values). For Flag classes these are the single-bit members only."""
+    return [True, False] if c is bool else list(c)
+
+
+def finite_literal_unions() -> list:
+    """(description, Ty) per finite class: the union of ALL named members (member-wise and merged spelling), every union
+    missing exactly one named member, the full union with one more member (None / a literal of another class / a
+    class), the full union plus every further instance CPython hands out (Flag: composite and zero values), and the
+    single-literal terms."""
+    import itertools
+
+    out = []
+    for c in FINITE_CLASSES:
+        kind = finite_class_kind(c)
+        named = finite_named_members(c)
+        lits = [ty.Lit(m) for m in named]
+        out.append((f"{kind}:full", ty.UnionOf(lits)))
+        out.append((f"{kind}:full-merged", ty.UnionOf(lits, merged=True)))
+        out.append((f"{kind}:full-reversed", ty.UnionOf(lits[::-1])))
+        if len(lits) > 1:
+            for i in range(len(lits)):
+                out.append((f"{kind}:all-but-one", ty.UnionOf(lits[:i] + lits[i + 1:], merged=bool(i % 2))))
+        for extra_name, extra in (("None", ty.NONE), ("other-literal", ty.Lit("a")), ("str", ty.Cls(str))):
+            out.append((f"{kind}:full+{extra_name}", ty.UnionOf(lits + [extra])))
+        if kind in ("Flag", "IntFlag"):
+            every = []
+            top = 0
+            for m in named:
+                top |= m._value_
+            for v in range(0, top + 1):
+                try:
+                    every.append(c(v))
+                except ValueError:
+                    pass
+            out.append((f"{kind}:every-value-up-to-all-bits", ty.UnionOf([ty.Lit(m) for m in every])))
+            out.append((f"{kind}:named+zero", ty.UnionOf(lits + [ty.Lit(c(0))])))
+    return out
+
+
+# ---------------------------------------------------------------------------
+# callable signature types (vp.ty.CallSig): <=2 named parameters called a / b in either order, every kind, with or
+# without default, optional *args / **kw, every annotation int or str
+
+_CS_RANK = {ty.PO: 0, ty.PK: 1, ty.VA: 2, ty.KO: 3, ty.VK: 4}
+_CS_TYPES = tuple(ty.CALLSIG_TYPES)
+
+
+def callsig_canon(ps) -> tuple:
+    return tuple(sorted((tuple(p) for p in ps), key=lambda p: _CS_RANK[p[1]]))  # stable: keeps the order inside a kind
+
+
+def callsig_valid(ps) -> bool:
+    names = [p[0] for p in ps]
+    if len(set(names)) != len(names):
+        return False
+    if sum(1 for p in ps if p[1] == ty.VA) > 1 or sum(1 for p in ps if p[1] == ty.VK) > 1:
+        return False
+    if sum(1 for p in ps if p[1] in (ty.PO, ty.PK, ty.KO)) > 2:
+        return False
+    seen_default = False
+    for p in ps:
+        if p[1] in (ty.PO, ty.PK):
+            if p[2]:
+                seen_default = True
+            elif seen_default:
+                return False
+    return True
+
+
+def callsig_space(both_namings: bool = True) -> list:
+    """Every signature of the space, in a fixed order. both_namings=False: the first named parameter is `a`."""
+    named = [None] + [(k, d, t) for k in (ty.PO, ty.PK, ty.KO) for d in (False, True) for t in _CS_TYPES]
+    out = {}
+    for s1 in named:
+        for s2 in named:
+            if s1 is None and s2 is not None:
+                continue
+            for nm in ((("a", "b"), ("b", "a")) if (s1 and both_namings) else (("a", "b"),)):
+                for va in (None,) + _CS_TYPES:
+                    for vk in (None,) + _CS_TYPES:
+                        ps = []
+                        if s1:
+                            ps.append((nm[0],) + s1)
+                        if s2:
+                            ps.append((nm[1],) + s2)
+                        if va:
+                            ps.append(("args", ty.VA, False, va))
+                        if vk:
+                            ps.append(("kw", ty.VK, False, vk))
+                        ps = callsig_canon(ps)
+                        if callsig_valid(ps):
+                            out[ps] = None
+    return list(out)
+
+
+def callsig_edits(ps) -> list:
+    """Every valid signature one edit away: drop a parameter; flip one annotation; toggle one default; change one
+    parameter's kind (placed first or last in its new group); rename one parameter (swapping when the name is taken);
+    add a named parameter (any kind / default / annotation, first or last in its group); add *args or **kw."""
+    ps = [tuple(p) for p in ps]
+    out = []
+    for i, (n, k, d, t) in enumerate(ps):
+        rest = ps[:i] + ps[i + 1:]
+        out.append(rest)
+        for t2 in _CS_TYPES:
+            if t2 != t:
+                out.append(ps[:i] + [(n, k, d, t2)] + ps[i + 1:])
+        if k in (ty.PO, ty.PK, ty.KO):
+            out.append(ps[:i] + [(n, k, not d, t)] + ps[i + 1:])
+            for k2 in (ty.PO, ty.PK, ty.KO):
+                if k2 != k:
+                    out.append(rest + [(n, k2, d, t)])
+                    out.append([(n, k2, d, t)] + rest)
+            n2 = "b" if n == "a" else "a"
+            q = [((n if x[0] == n2 else x[0]),) + x[1:] for x in ps]
+            q[i] = (n2, k, d, t)
+            out.append(q)
+    used = {p[0] for p in ps}
+    for n in ("a", "b"):
+        if n not in used:
+            for k in (ty.PO, ty.PK, ty.KO):
+                for d in (False, True):
+                    for t in _CS_TYPES:
+                        out.append(ps + [(n, k, d, t)])
+                        out.append([(n, k, d, t)] + ps)
+    if not any(p[1] == ty.VA for p in ps):
+        out.extend(ps + [("args", ty.VA, False, t)] for t in _CS_TYPES)
+    if not any(p[1] == ty.VK for p in ps):
+        out.extend(ps + [("kw", ty.VK, False, t)] for t in _CS_TYPES)
+    res, seen = [], {callsig_canon(ps)}
+    for q in out:
+        c = callsig_canon(q)
+        if c not in seen and callsig_valid(c):
+            seen.add(c)
+            res.append(c)
+    return res
